@@ -1,4 +1,5 @@
-import Scion.Proofs.Combinator
+import Scion.Proofs.CombGraph
+import Scion.Gen.Comb
 /-!
 # C29 — Path combination finds every valid segment combination
 
@@ -39,5 +40,127 @@ theorem join_returned (ups cores downs : List Seg) (src dst : Nat) (es : List Ed
       have := h2 i.ia
       simp; exact this
     simp [this]
+
+/-! ### the graph search of graph.go against the specification
+
+`IsJoinStrict` is `IsJoin` with the side condition that no intermediate join point is the
+destination vertex: `GetPaths` does not extend a solution that has reached the destination.
+(Such a join enters the destination AS, leaves it and comes back: with non-zero interface ids it
+has three interface entries of the destination AS and is removed by `filterLongPaths` anyway.)
+`NoCollision`: no segment produces two edges between the same two vertices (holds for loop-free
+segments whose AS entries announce each peering interface once); otherwise `AddEdge` overwrites. -/
+
+/-- soundness: everything the search finds is a join of the specification (no hypothesis on the
+segments beyond non-emptiness, which `newDMG = some g` expresses) -/
+theorem getPaths_sound {ups cores downs : List Seg} {g : DMG} {src dst : Nat} {es : List Edge}
+    (hg : newDMG ups cores downs = some g) (h : es ∈ getPaths g src dst) :
+    IsJoinStrict ups cores downs src dst es ∧ es ∈ allJoins ups cores downs src dst := by
+  obtain ⟨c, hc, rfl⟩ := getPaths_iff_chain.1 h
+  have := chain_to_join (fun x hx => dmg_sound hg hx) hc
+  exact ⟨this, (allJoins_iff ..).2 this.isJoin⟩
+
+/-- completeness: every join of the specification (not passing through the destination vertex) is
+found by the search -/
+theorem getPaths_complete {ups cores downs : List Seg} {g : DMG} {src dst : Nat} {es : List Edge}
+    (hg : newDMG ups cores downs = some g) (hn : NoCollision (allTuples ups cores downs))
+    (h : IsJoinStrict ups cores downs src dst es) : es ∈ getPaths g src dst := by
+  have hall : ∀ x ∈ allTuples ups cores downs, x ∈ g := by
+    intro x hx; rw [dmg_complete hg hn]; exact hx
+  obtain ⟨c, hc, rfl⟩ := join_to_chain hall h
+  exact getPaths_iff_chain.2 ⟨c, hc, rfl⟩
+
+/-- the search needs no more than four rounds of the queue loop -/
+theorem bfs_fuel {g : DMG} {src dst : Nat} (n : Nat) (es : List Edge) :
+    es ∈ bfs g (vIA dst) (4 + n) [⟨[], vIA src, none⟩] ↔ es ∈ getPaths g src dst :=
+  Scion.Combinator.bfs_fuel n es
+
+/-- the graph is built without a panic exactly when no segment is empty -/
+theorem newDMG_total (ups cores downs : List Seg)
+    (h : ∀ s ∈ ups ++ cores ++ downs, s.ents ≠ []) : ∃ g, newDMG ups cores downs = some g := by
+  have hall : ∀ (kind : Kind) (ss : List Seg) (g : DMG) (i : Nat), (∀ s ∈ ss, s.ents ≠ []) →
+      ∃ g', traverseAll kind g i ss = some g' := by
+    intro kind ss
+    induction ss with
+    | nil => intro g i _; exact ⟨g, rfl⟩
+    | cons s ss ih =>
+      intro g i hs
+      obtain ⟨l, hl⟩ := lastIA_some_iff.2 (hs s List.mem_cons_self)
+      obtain ⟨f, hf⟩ := firstIA_some_iff.2 (hs s List.mem_cons_self)
+      have hts : ∃ g1, traverseSegment g s kind i = some g1 := by
+        unfold traverseSegment
+        simp only [hl, hf]
+        split <;> exact ⟨_, rfl⟩
+      obtain ⟨g1, hg1⟩ := hts
+      unfold traverseAll
+      simp only [hg1]
+      exact ih _ _ (fun t ht => hs t (List.mem_cons_of_mem _ ht))
+  unfold newDMG
+  obtain ⟨g1, h1⟩ := hall .up ups [] 0 (fun s hs => h s (by simp [hs]))
+  obtain ⟨g2, h2⟩ := hall .core cores g1 ups.length (fun s hs => h s (by simp [hs]))
+  obtain ⟨g3, h3⟩ := hall .down downs g2 (ups.length + cores.length) (fun s hs => h s (by simp [hs]))
+  exact ⟨g3, by simp [h1, h2, h3]⟩
+
+/-- `Path` does not panic on a join: the `Path` of every join exists -/
+theorem pathOf_ok_of_join {ups cores downs : List Seg} {src dst : Nat} {es : List Edge}
+    (h : IsJoin ups cores downs src dst es) : ∃ p, pathOf es = .ok p :=
+  Scion.Combinator.pathOf_ok_of_join h
+
+/-- full statement on the model: with the graph built from non-empty, collision-free segments,
+`Combine` (graph version, `findAllIdentical`) returns the path of every strict join that passes no
+AS more than twice -/
+theorem combineDMG_complete {ups cores downs : List Seg} {src dst : Nat} {es : List Edge}
+    (hne : ∀ s ∈ ups ++ cores ++ downs, s.ents ≠ [])
+    (hn : NoCollision (allTuples ups cores downs))
+    (h : IsJoinStrict ups cores downs src dst es) :
+    ∃ p ps, pathOf es = .ok p ∧ combineDMG ups cores downs src dst true = some ps ∧
+      ((∀ ia, (p.intfs.map (·.ia)).count ia ≤ 2) → p ∈ ps) := by
+  obtain ⟨g, hg⟩ := newDMG_total ups cores downs hne
+  obtain ⟨p, hp⟩ := pathOf_ok_of_join h.isJoin
+  refine ⟨p, filterLongPaths (sortByWeight (pathsOf (getPaths g src dst))), hp,
+    by simp [combineDMG, hg], ?_⟩
+  intro h2
+  unfold filterLongPaths
+  rw [List.mem_filter]
+  refine ⟨(sortByWeight_perm _).mem_iff.2 ?_, ?_⟩
+  · unfold pathsOf
+    rw [List.mem_filterMap]
+    exact ⟨es, getPaths_complete hg hn h, by simp [hp]⟩
+  · have : isLong p.intfs = false := by
+      unfold isLong
+      rw [List.any_eq_false]
+      intro i _
+      have := h2 i.ia
+      simp; exact this
+    simp [this]
+
+/-! ### fact regenerated from the source (T3) -/
+
+/-- the `validNextSeg` used by the search model is the table read off the `switch` in graph.go:
+after an up segment a core or down segment, after a core segment a down segment, nothing after a
+down segment, anything first -/
+theorem gen_validNext :
+    Scion.Gen.Comb.validNext = [("up", ["core", "down"]), ("core", ["down"]), ("down", [])] ∧
+    Scion.Gen.Comb.firstSegAny = "true" ∧
+    (∀ b, validNextSeg none b = true) ∧
+    (∀ b, validNextSeg (some .up) b = (b == .core || b == .down)) ∧
+    (∀ b, validNextSeg (some .core) b = (b == .down)) ∧
+    (∀ b, validNextSeg (some .down) b = false) := by
+  refine ⟨by decide, by decide, ?_, ?_, ?_, ?_⟩ <;> intro b <;> cases b <;> rfl
+
+/-! ### non-vacuity -/
+def exUp : Seg := ⟨100, 7, [⟨1, ⟨0, 1, 63, 5⟩, 0, 1500, []⟩, ⟨2, ⟨1, 2, 63, 6⟩, 1400, 1500, []⟩,
+  ⟨3, ⟨1, 0, 10, 5⟩, 1300, 1500, [⟨⟨9, 0, 63, 6⟩, 4, 8, 1200⟩]⟩]⟩
+def exDown : Seg := ⟨200, 9, [⟨1, ⟨0, 1, 63, 1⟩, 0, 1500, []⟩, ⟨2, ⟨1, 3, 63, 2⟩, 1400, 1500, []⟩,
+  ⟨4, ⟨1, 0, 63, 3⟩, 1350, 1500, [⟨⟨8, 0, 20, 4⟩, 3, 9, 1200⟩]⟩]⟩
+
+example : NoCollision (allTuples [exUp] [] [exDown]) := by
+  unfold NoCollision
+  decide
+
+/-- the graph search and the specification agree on the example: join at the core, shortcut at AS
+2, and the peering link 3#9 — 4#8 -/
+example : (newDMG [exUp] [] [exDown]).map (fun g => (getPaths g 3 4).map fun es => es.map fun e => (e.kind, e.sc, e.peer)) =
+    some [[(.up, 2, 1), (.down, 2, 1)], [(.up, 1, 0), (.down, 1, 0)], [(.up, 0, 0), (.down, 0, 0)]] := by
+  decide
 
 end Scion.C29
